@@ -26,6 +26,10 @@ impl Cx {
                 Ok(n)
             }
             Pat::Wild(_) => Ok("_".into()),
+            Pat::Lit(l) => match &l.lit {
+                Lit::Bool(b) => Ok(if b.value { "true".into() } else { "false".into() }),
+                _ => Err(format!("unsupported literal pattern {}", ts(p))),
+            },
             Pat::Paren(p) => self.pat(&p.pat, ty),
             Pat::Reference(r) => self.pat(&r.pat, ty),
             Pat::Type(t) => {
@@ -79,6 +83,8 @@ impl Cx {
             Expr::Lit(l) => match &l.lit {
                 Lit::Int(i) => Ok((i.base10_digits().to_string(), Ty::Unknown)),
                 Lit::Bool(b) => Ok((if b.value { "true".into() } else { "false".into() }, Ty::Bool)),
+                Lit::Str(st) => Ok((format!("[{}]", st.value().bytes().map(|b| format!("{}%N", b)).collect::<Vec<_>>().join("; ")), Ty::Str)),
+                Lit::Char(c) => Ok((format!("{}%N", c.value() as u32), Ty::Char)),
                 _ => Err(format!("unsupported literal {}", ts(e))),
             },
             Expr::Path(p) => {
@@ -87,6 +93,9 @@ impl Cx {
                     "None" => return Ok(("None".into(), Ty::opt(Ty::Unknown))),
                     "i16::MAX" => return Ok(("i16_max".into(), Ty::I16)),
                     "i16::MIN" => return Ok(("i16_min".into(), Ty::I16)),
+                    "LineState::BeforeIndent" => return Ok(("BeforeIndent".into(), Ty::LState)),
+                    "LineState::PartialIndent" => return Ok(("PartialIndent".into(), Ty::LState)),
+                    "LineState::Content" => return Ok(("Content".into(), Ty::LState)),
                     "self" => {
                         return match self.cur.self_kind.clone() {
                             SelfKind::Val(t) => Ok(("v_self".into(), t)),
@@ -155,6 +164,8 @@ impl Cx {
                 };
                 let (bt, bty) = self.expr(&f.base, pres)?;
                 match (&bty, fname.as_str()) {
+                    (Ty::IState, "is_last_item") => Ok((format!("fst {}", paren(&bt)), Ty::Bool)),
+                    (Ty::IState, "is_first_line") => Ok((format!("snd {}", paren(&bt)), Ty::Bool)),
                     (Ty::AddrRange, "start") => Ok((format!("fst {}", paren(&bt)), Ty::Addr)),
                     (Ty::AddrRange, "end") => Ok((format!("snd {}", paren(&bt)), Ty::Addr)),
                     (Ty::TravSt, "root") => Ok((format!("fst {}", paren(&bt)), Ty::NodeId)),
@@ -168,6 +179,41 @@ impl Cx {
                     _ => Err(format!("unsupported field access `{}` on {:?}", ts(e), bty)),
                 }
             }
+            Expr::Index(ix) if matches!(&*ix.index, Expr::Range(_)) => {
+                // &x[..n] / &x[n..] on a str or a slice of indent states
+                let r = match &*ix.index {
+                    Expr::Range(r) => r,
+                    _ => unreachable!(),
+                };
+                let (b, bty) = self.expr(&ix.expr, pres)?;
+                if bty != Ty::Str && bty != Ty::ListIState {
+                    return Err(format!("range indexing of {:?}", bty));
+                }
+                if !matches!(r.limits, RangeLimits::HalfOpen(_)) {
+                    return Err("inclusive range".into());
+                }
+                match (&r.start, &r.end) {
+                    (None, Some(hi)) => {
+                        let (h, _) = self.expr(hi, pres)?;
+                        Ok((format!("firstn {} {}", paren(&lit_as(&h, &Ty::Nat)), paren(&b)), bty))
+                    }
+                    (Some(lo), None) => {
+                        let (l, _) = self.expr(lo, pres)?;
+                        Ok((format!("skipn {} {}", paren(&lit_as(&l, &Ty::Nat)), paren(&b)), bty))
+                    }
+                    _ => Err("unsupported range form".into()),
+                }
+            }
+            Expr::Index(ix) if ts(&ix.expr).replace(' ', "") == "self.indents" => {
+                let (l, _) = self.expr(&ix.expr, pres)?;
+                let (i, ity) = self.expr(&ix.index, pres)?;
+                if ity != Ty::Nat {
+                    return Err("self.indents[..] with a non-usize index".into());
+                }
+                let x = self.gensym("x_");
+                pres.push(Pre::Guard(format!("nth_error {} {}", paren(&l), paren(&i)), format!("Some {}", x), vec![("None".into(), Code::Panic("P_INDEX"))]));
+                Ok((x, Ty::IState))
+            }
             Expr::Index(_) => match self.place(e, pres)? {
                 Some(pl) => self.read_place(&pl, pres),
                 None => Err(format!("unsupported index expression {}", ts(e))),
@@ -178,6 +224,8 @@ impl Cx {
             Expr::Try(t) => {
                 let (v, ty) = self.expr(&t.expr, pres)?;
                 match (&ty, &self.cur.ret) {
+                    // fmt::Result of the sink: the model's sink never fails
+                    (Ty::Unit, _) => Ok(("tt".into(), Ty::Unit)),
                     (Ty::CRes, Ty::CRes) => {
                         let e = self.gensym("e_");
                         pres.push(Pre::Guard(v, "COk".into(), vec![(format!("CErr {}", e), self.fn_return_code(&format!("CErr {}", e)))]));
@@ -319,10 +367,17 @@ impl Cx {
                 "SiblingsRange" | "DetachedSiblingsRange" => "Range",
                 "NodeId" => "NodeId",
                 "Node" => "Node",
+                "IndentedBlockState" => "IState",
                 _ => return Err(format!("unsupported struct literal {}", name)),
             }
         };
         match target {
+            "IState" => {
+                if fields.len() != 2 {
+                    return Err("IndentedBlockState literal".into());
+                }
+                Ok((format!("({}, {})", get("is_last_item")?, get("is_first_line")?), Ty::IState))
+            }
             "Range" => {
                 if fields.len() != 2 {
                     return Err("range literal".into());
